@@ -74,7 +74,11 @@ class PcapNg:
     def custom(self):
         return self.block(CUSTOM, struct.pack(self.e + "I", 32473) + b"unrelated custom data!!!")
 
-    def build(self, blocks, pre_idb=(), second_if=None):
+    def pb(self, ifc, drops, ts_units, frame):
+        """obsolete Packet Block (type 2): 16-bit interface id, 16-bit drops count, then as an Enhanced Packet Block"""
+        return self.block(2, struct.pack(self.e + "HHIIII", ifc, drops, ts_units >> 32, ts_units & 0xFFFFFFFF, len(frame), len(frame)) + _pad(frame))
+
+    def build(self, blocks, pre_idb=(), second_if=None, packet_block=None):
         out = [self.shb()]
         for b in pre_idb:  # blocks between SHB and IDB: unrelated ones by name, or ('dsb', text)
             out.append(self.dsb(b[1]) if isinstance(b, tuple) else getattr(self, b)())
@@ -84,7 +88,11 @@ class PcapNg:
             out.append(w2.idb())
         for b in blocks:
             k = b[0]
-            if k == "pkt":
+            if k == "pkt" and packet_block is not None:
+                out.append(self.pb(0, packet_block, b[1], b[2]))
+            elif k == "pkt2" and packet_block is not None:
+                out.append(self.pb(1, packet_block, b[1], b[2]))
+            elif k == "pkt":
                 out.append(self.epb(b[1], b[2]))
             elif k == "pkt2":
                 fr = b[2]
@@ -104,11 +112,12 @@ def units_per_second(tsresol):
     return 2 ** (tsresol & 0x7F) if tsresol & 0x80 else 10 ** tsresol
 
 
-def pcapng_bytes(pkts, le=True, tsresol=None, tsoffset=None, dsbs=(), extra=(), pre_idb=(), shb_opts=False, second_if=None, spb=()):
+def pcapng_bytes(pkts, le=True, tsresol=None, tsoffset=None, dsbs=(), extra=(), pre_idb=(), shb_opts=False, second_if=None, spb=(), packet_block=None):
     """pkts: list of (ts_us:int, frame) -- or (ts_num, ts_den_per_s ...) handled by caller.
     dsbs: list of (position, text) -- position = index in pkts before which the DSB is written (len(pkts) = end)
     extra: list of (position, kind)
-    spb: indices of packets stored as Simple Packet Blocks (no timestamp)"""
+    spb: indices of packets stored as Simple Packet Blocks (no timestamp)
+    packet_block: None, or the drops count: every packet is stored as an obsolete Packet Block (type 2) instead of an Enhanced one"""
     w = PcapNg(le=le, tsresol=tsresol, tsoffset=tsoffset, shb_opts=shb_opts)
     ups = units_per_second(tsresol)
     off = tsoffset or 0
@@ -145,7 +154,7 @@ def pcapng_bytes(pkts, le=True, tsresol=None, tsoffset=None, dsbs=(), extra=(), 
     for p, kind in extra:
         if p >= len(pkts):
             blocks.append((kind,))
-    return w.build(blocks, pre_idb=pre_idb, second_if=second_if)
+    return w.build(blocks, pre_idb=pre_idb, second_if=second_if, packet_block=packet_block)
 
 
 def pcap_bytes(pkts, le=True, nano=False):
